@@ -257,3 +257,14 @@ package reg
 //@   in ~/scheme/reg
 //@   infunc \)\.BlobPut$
 //@   requires under-the-targets-identity: r == old(caller.r)
+
+// C05 "succeeds for every ... chunking" against a conforming destination: the upload session moves
+// with the Location each answer carries, and a relative Location is relative to the URL of the
+// request that was just answered (RFC 9110 section 10.2.2) - not to the URL the session was opened
+// at, which may be another node or path by now.
+//@ callsite (*net/url.URL).Parse(ref)
+//@   prop C05
+//@   name URL.Parse/next-chunk-location
+//@   in ~/scheme/reg
+//@   infunc \)\.blobPutUploadChunked$
+//@   requires relative-to-the-request-just-answered: recv == caller.httpResp.Request.URL
